@@ -98,30 +98,30 @@ func alphabet(name string) *Alphabet {
 func planFor(tier string) []run {
 	if tier != "thorough" {
 		return []run{
-			{cfgCheap, "init", 4, "base"},
-			{cfgCheap, "S1", 4, "base"},
-			{cfgCheap, "S2", 3, "base"},
-			{cfgCheap, "S3", 3, "base"},
-			{cfgCheap, "S4", 2, "base"},
-			{cfgCheap, "S5", 3, "base"},
 			{cfgPrecious, "init", 3, "r1only"},
 			{cfgPrecious, "S0", 2, "r1only"},
+			{cfgCheap, "S4", 2, "base"},
+			{cfgCheap, "S5", 3, "base"},
+			{cfgCheap, "S2", 3, "base"},
+			{cfgCheap, "S3", 3, "base"},
+			{cfgCheap, "init", 4, "base"},
+			{cfgCheap, "S1", 4, "base"},
 		}
 	}
 	return []run{
-		{cfgCheap, "init", 5, "base"},
-		{cfgCheap, "init", 3, "wide"},
-		{cfgCheap, "S1", 3, "wide"},
-		{cfgCheap, "S1", 5, "base"},
-		{cfgCheap, "S2", 5, "base"},
-		{cfgCheap, "S3", 5, "base"},
-		{cfgCheap, "S4", 3, "base"},
-		{cfgCheap, "S5", 4, "base"},
-		{cfgCheap, "S1", 8, "narrow"},
-		{cfgCheap, "S2", 8, "narrow"},
-		{cfgCheap, "S3", 8, "narrow"},
 		{cfgPrecious, "init", 4, "r1only"},
 		{cfgPrecious, "S0", 3, "r1only"},
+		{cfgCheap, "S4", 3, "base"},
+		{cfgCheap, "S5", 4, "base"},
+		{cfgCheap, "init", 3, "wide"},
+		{cfgCheap, "S1", 3, "wide"},
+		{cfgCheap, "init", 5, "base"},
+		{cfgCheap, "S2", 5, "base"},
+		{cfgCheap, "S3", 5, "base"},
+		{cfgCheap, "S1", 5, "base"},
+		{cfgCheap, "S3", 7, "narrow"},
+		{cfgCheap, "S2", 7, "narrow"},
+		{cfgCheap, "S1", 7, "narrow"},
 	}
 }
 
@@ -171,6 +171,7 @@ func buildSeed(w *World, name string, fail func(a, s, d string)) (sdk.Context, *
 			return ctx, l, fmt.Errorf("seed %s: op %s: %s", name, op, out)
 		}
 	}
+	l.Steps = 0
 	return ctx, l, nil
 }
 
